@@ -273,7 +273,7 @@ func init() {
 	register(&Prop{
 		ID:         "C15",
 		Title:      "Emulated failures fail every data call, change nothing, and are reversible",
-		Decided:    "per client package: (R1) every DynamoDB data method (classified by SDK operation name) tests Client.forceFailureErr with the mutex held, and every instruction that touches client/table state lies on the nil edge of that test – so a failing call changes nothing because it never reaches state; (R2) the non-nil edge returns the configured error value itself with no output; (R3) BatchWriteItem does not short-circuit on the failure but routes every request through the client's own checked PutItem/DeleteItem, unconditionally for every request of every table, and its error handler turns a non-nil error into nil only after appending the request to the unprocessed map that is returned; (R4) the condition table has an entry for every FailureCondition constant with None ↦ nil, the three public switches reach the single writer of forceFailureErr with the right constants; (R5) the v1 and v2 summaries agree; WithContext wrappers are pure delegations; (R6) nothing a failing batch hands back is built on package-level storage shared between tables, calls or clients (= C18.R6); (R7) the client has no state beyond the confirmed fields: a field added later that derives from the failure switch must be rewritten wherever the switch is.",
+		Decided:    "per client package: (R1) every DynamoDB data method (classified by SDK operation name) tests Client.forceFailureErr with the mutex held, and every instruction that touches client/table state lies on the nil edge of that test – so a failing call changes nothing because it never reaches state; (R2) the non-nil edge returns the configured error value itself with no output; (R3) BatchWriteItem does not short-circuit on the failure but routes every request through the client's own checked PutItem/DeleteItem, unconditionally for every request of every table, and its error handler turns a non-nil error into nil only after appending the request to the unprocessed map that is returned; (R4) the condition table has an entry for every FailureCondition constant with None ↦ nil, the three public switches reach the single writer of forceFailureErr with the right constants; (R5) the v1 and v2 summaries agree; WithContext wrappers are pure delegations; (R6) nothing a failing batch hands back is built on package-level storage shared between tables, calls or clients (= C18.R6); (R7) the client has no state beyond the confirmed fields: a field added later that derives from the failure switch must be rewritten wherever the switch is; (R8) the per-request error handler records a request as unprocessed only on paths on which the error was found to be an API error.",
 		NotDecided: "equality of states before/after is never computed (the argument is that no state-touching instruction is reachable on the failure edge); behaviour of the SDK error types; value of the error message.",
 		Assumes:    []string{"data operations are identified by DynamoDB API operation names (PutItem, GetItem, DeleteItem, UpdateItem, Query, Scan, BatchWriteItem, BatchGetItem, Transact*, Execute*) and their WithContext variants"},
 		Rules: []RuleDef{
@@ -361,6 +361,7 @@ func init() {
 			}},
 			{ID: "R6", Desc: "the unprocessed lists of a failing batch are not built on shared package-level storage (= C18.R6)", Run: aliasRule("R6", c18R6, nil)},
 			{ID: "R7", Desc: "the client has no state beyond the confirmed fields: a saved previous failure, a memo of the switch etc. must follow every write of forceFailureErr (T-FIELD closure)", Run: func(e *Engine) { stateModelClosed(e, "R7", func(k string) bool { return k == "v1.Client" || k == "v2.Client" }) }},
+			{ID: "R8", Desc: "a batch write records a request as unprocessed only for API errors: under \"errors.As answered false\" the recording is unreachable (CFG exploration under facts)", Run: c15R8},
 		},
 	})
 }
@@ -859,4 +860,99 @@ func runsParamAlways(e *Engine, g *ssa.Function, i int) bool {
 		}
 	})
 	return ok
+}
+
+// c15R8: which failures of a single request a batch write turns into "unprocessed". The per-request error handler of each
+// client records the request in the unprocessed map only for an API error (the errors.As test succeeded) – an error that
+// is not one (the deprecated forced failure is a plain error value) is handed back and fails the call. Judged by
+// exploring the handler under the fact "errors.As answered false": the recording must not be reachable.
+func c15R8(e *Engine) {
+	n := 0
+	for _, role := range clientRoles {
+		for _, fn := range e.funcs(role) {
+			if fn.Parent() != nil || errResultIndex(fn) != 0 || fn.Signature.Results().Len() != 1 {
+				continue
+			}
+			var unp, errP *ssa.Parameter
+			for _, p := range fn.Params {
+				if m, ok := p.Type().Underlying().(*types.Map); ok && strings.Contains(typeName(m.Elem()), "WriteRequest") {
+					unp = p
+				}
+				if isErrorType(p.Type()) {
+					errP = p
+				}
+			}
+			if unp == nil || errP == nil {
+				continue
+			}
+			var records []wEvent
+			var asCalls []*ssa.Call
+			e.walkLocal(role, fn, 1, func(in ssa.Instruction, ctx []callCtx) {
+				if len(ctx) > 0 {
+					return
+				}
+				switch x := in.(type) {
+				case *ssa.MapUpdate:
+					if strip(x.Map) == ssa.Value(unp) {
+						records = append(records, wEvent{in, "the request is recorded as unprocessed"})
+					}
+				case *ssa.Call:
+					if staticCalleeName(x) == "errors.As" {
+						asCalls = append(asCalls, x)
+					}
+				}
+			})
+			// the classification may live in a predicate helper (isRetryable(err) bool): its call plays the role of the test
+			var tests []ssa.Value
+			for _, c := range asCalls {
+				tests = append(tests, c)
+			}
+			instrs(fn, func(in ssa.Instruction) {
+				c, ok := in.(*ssa.Call)
+				if !ok || c.Call.StaticCallee() == nil || e.fnRole(c.Call.StaticCallee()) != role || !isBoolType(c.Type()) {
+					return
+				}
+				usesAs := false
+				instrs(c.Call.StaticCallee(), func(j ssa.Instruction) {
+					if cc, ok := j.(*ssa.Call); ok && staticCalleeName(cc) == "errors.As" {
+						usesAs = true
+					}
+				})
+				if usesAs {
+					tests = append(tests, c)
+				}
+			})
+			if len(records) == 0 {
+				continue
+			}
+			n++
+			construct := e.fname(fn) + ":unprocessed-only-for-api-errors"
+			if len(tests) == 0 {
+				e.fail("R8", construct, e.pos(fn.Pos()), "requests are recorded as unprocessed without any test of what kind of error occurred")
+				continue
+			}
+			// no classification succeeded (every errors.As / classifying predicate answered false) => nothing is recorded
+			bad := ""
+			facts := map[ssa.Value]bool{}
+			var first ssa.Instruction
+			for _, t := range tests {
+				facts[t] = false
+				ti := t.(ssa.Instruction)
+				if first == nil || idominates(ti, first) {
+					first = ti
+				}
+			}
+			if w := writeReachableUnder(records, first, facts); w != nil {
+				bad = e.ipos(w.in)
+			}
+			if bad != "" {
+				e.fail("R8", construct, bad, "a request is recorded as unprocessed although the error is not an API error (the errors.As test answered false): the deprecated forced failure – a plain error – makes BatchWriteItem succeed with everything unprocessed instead of failing with that error, and the two clients disagree")
+			} else {
+				e.pass("R8", construct, e.pos(fn.Pos()), "the request is recorded as unprocessed only on paths on which the error was found to be an API error")
+			}
+		}
+	}
+	if n < 2 {
+		e.fail("R8", "count:R8", "-", "only %d per-request batch-write error handlers found (one per client expected)", n)
+	}
 }
